@@ -1443,7 +1443,8 @@ class FortranFile:
             if self.parse_contains(line_no_comment, line_no, file_ast):
                 continue
             # Loop through tests
-            obj_read = self.get_fortran_definition(line)
+            # Trailing comments are not part of any definition
+            obj_read = self.get_fortran_definition(line_no_comment)
             # Move to next line if nothing in the definition tests matches
             if obj_read is None:
                 continue
